@@ -559,6 +559,12 @@ def monitors(res, c):
                        % (i + 1, json.dumps(got[i] if i < len(got) else None)[:300], json.dumps(want[i])[:200]))
         elif want is None and any(f[0] == "E" for rr in got for f in rr):
             bad.append("canary's extended round got an error: %s" % json.dumps(got)[:300])
+    if VARIANTS[c["variant"]]["cache"]:
+        # statement caching on: no statement name a client chooses exists on a server, and the pooler's own are not a client's to
+        # close: the backend never sees Close('S', <non-empty name>) (the pool's LRU of 50 is never full here: no eviction Close)
+        cl = sorted({str(e["detail"].get("name")) for e in ev if e.get("ev") == "msg" and e.get("tag") == "C" and e.get("detail", {}).get("kind") == "S" and e.get("detail", {}).get("name")})
+        if cl:
+            bad.append("statement caching on, yet the backend received Close of named statement(s) %s" % cl[:6])
     if "panic" in res.get("task_results", [])[1:]:
         bad.append("a task other than the first one to end (the sender's) panicked: %s" % res.get("task_results"))
     snaps = [s for s in res.get("snapshots", []) if s.get("label") == "end"]
@@ -1068,6 +1074,85 @@ def startup_param_cases():
     return out
 
 
+def foreign_name_cases():
+    """hostile use of statement names the sender does not own, statement caching on: the pooler's internal PGCAT_<n>, the names
+    the victim uses, the empty name — through Close / Bind / Describe / Parse and through SQL DEALLOCATE / PREPARE."""
+    pg = [b"PGCAT_%d" % i for i in range(16)]
+    items = {
+        "close_S_pgcat_0_15": b"".join(Cm(b"S", n) for n in pg) + Sm,
+        "close_S_pgcat_0": Cm(b"S", b"PGCAT_0") + Sm,
+        "close_P_pgcat_0_15": b"".join(Cm(b"P", n) for n in pg) + Sm,
+        "close_S_victim_names": Cm(b"S", b"c0") + Cm(b"S", b"c2") + Sm,
+        "close_S_empty": Cm(b"S", b"") + Sm,
+        "bind_pgcat_0": Bm(name=b"PGCAT_0") + Em() + Sm,
+        "describe_pgcat_1": Dm(b"S", b"PGCAT_1") + Sm,
+        "parse_named_pgcat_0_other_text": Pm(b"PGCAT_0", b"SELECT 'hijack'") + Bm(name=b"PGCAT_0") + Em() + Sm,
+        "parse_victim_name_other_text": Pm(b"c0", b"SELECT 'hijack'") + Bm(name=b"c0") + Em() + Cm(b"S", b"c0") + Sm,
+        "parse_unnamed_other_text": Pm(b"", b"SELECT 'hijack'") + Bm() + Em() + Sm,
+        "parse_same_text_then_close": Pm(b"x0", T0) + Pm(b"x2", T0, TYPES2) + Cm(b"S", b"x0") + Cm(b"S", b"x2") + Sm,
+        "sql_deallocate_pgcat_0": Qm(b"DEALLOCATE PGCAT_0"),
+        "sql_deallocate_quoted": Qm(b'DEALLOCATE "PGCAT_1"'),
+        "sql_deallocate_lower": Qm(b"deallocate pgcat_0"),
+        "sql_deallocate_all": Qm(b"DEALLOCATE ALL"),
+        "sql_discard_all": Qm(b"DISCARD ALL"),
+        "sql_prepare_pgcat_next": Qm(b"PREPARE PGCAT_2 AS SELECT 1") + Qm(b"PREPARE PGCAT_3 AS SELECT 1") + Qm(b"PREPARE PGCAT_4 AS SELECT 1"),
+        "sql_deallocate_in_txn": Qm(b"BEGIN") + Qm(b"DEALLOCATE PGCAT_0") + Qm(b"COMMIT"),
+    }
+    out = []
+    for vn in ("cache", "all"):
+        for lab, hb in items.items():
+            for stay in (True, False):
+                out.append(dict(variant=vn, label="foreign_%s_%s_%s" % (lab, vn, "victim_stays" if stay else "victim_left"), bytes=hb, stay=stay))
+    return out
+
+
+def foreign_name_scenario(c):
+    v = VARIANTS[c["variant"]]
+    rounds = canary_ext_rounds()
+    V, A = "v", "a"
+    steps = [{"op": "connect", "c": V, "params": {"user": "u", "database": "db"}, "password": "pw", "timeout_ms": 4000}]
+    for i in (0, 1):     # the victim prepares its two statements: the server now holds PGCAT_0 and PGCAT_1
+        steps += [{"op": "send", "c": V, "msgs": [{"raw": rounds[i].hex()}]}, {"op": "recv", "c": V, "until": "Z", "timeout_ms": 4000, "label": "vprep%d" % (i + 1)}]
+    if not c["stay"]:
+        steps += [{"op": "send", "c": V, "msgs": [{"t": "X"}]}, {"op": "recv", "c": V, "until": "", "count": 0, "timeout_ms": 4000, "label": "bye"}, {"op": "wait_tasks", "n": 1, "timeout_ms": 4000}]
+    steps += [{"op": "connect", "c": A, "params": {"user": "u", "database": "db"}, "password": "pw", "timeout_ms": 4000},
+              {"op": "send", "c": A, "msgs": [{"raw": c["bytes"].hex()}]}, {"op": "half_close", "c": A},
+              {"op": "recv", "c": A, "until": "", "count": 0, "timeout_ms": 5000, "label": "hostile"}, {"op": "close", "c": A},
+              {"op": "wait_tasks", "n": 1 if c["stay"] else 2, "timeout_ms": 5000}]
+    n = 2
+    if c["stay"]:        # the victim goes on using its statements: Bind / Execute again
+        steps += [{"op": "send", "c": V, "msgs": [{"raw": rounds[2].hex()}]}, {"op": "recv", "c": V, "until": "Z", "timeout_ms": 4000, "label": "vagain"},
+                  {"op": "send", "c": V, "msgs": [{"t": "X"}]}, {"op": "recv", "c": V, "until": "", "count": 0, "timeout_ms": 4000, "label": "bye"}]
+    return {"backends": [{"name": "b0"}], "toml": make_toml(v), "hex": False, "workers": 2, "steps": steps + canary(5000, True, n + 1)}
+
+
+def foreign_name_monitor(r, c):
+    """the victim's later Bind / Execute is answered as on a fresh pool; the pooler's statements the backend session held before
+    the hostile stream are still there when the next client's traffic arrives (minimal abstraction of the backend's statement
+    set: another client's Close / DEALLOCATE does not change it)"""
+    bad = []
+    if "events" not in r:
+        return bad
+    ev = r["events"]
+    if c["stay"] and BASELINE.get("ext"):
+        got = [[canon_frame(f) for f in e["frames"]] for e in ev if e.get("who") == "v" and e.get("label") == "vagain"]
+        if got != [BASELINE["ext"][2]]:
+            bad.append("the victim's Bind/Execute of its own prepared statements is not answered as on a fresh pool: %s" % json.dumps(got)[:400])
+    hostile_seq = [e["seq"] for e in ev if e.get("who") == "a" and e.get("ev") == "sent"]
+    if hostile_seq:
+        before = [e for e in ev if e.get("ev") == "msg" and e["seq"] < hostile_seq[0]]
+        after = [e for e in ev if e.get("ev") == "msg" and e["seq"] > hostile_seq[0]]
+        conn = before[-1]["conn"] if before else None
+        held = {x[0] for x in (before[-1]["state"].get("stmts", []) if before else []) if str(x[0]).startswith("PGCAT_")}
+        # the last message the backend session of that connection saw tells what it still holds
+        last_same = [e for e in after if e["conn"] == conn]
+        if last_same and held:
+            closes = [e for e in last_same if e["tag"] == "C" and e["detail"].get("kind") == "S" and str(e["detail"].get("name", "")).startswith("PGCAT_")]
+            if closes:
+                bad.append("the backend received Close of the pooler's own statement(s) %s" % sorted({e["detail"]["name"] for e in closes})[:6])
+    return bad
+
+
 def cross_client_probes(run, wire):
     """monitor-only families (Decode.v treats these streams as ordinary well-framed messages; what they could hurt is SHARED
     state: the pool's and the servers' statement caches, the server connection's session parameters)"""
@@ -1083,6 +1168,34 @@ def cross_client_probes(run, wire):
         viol(run, probs, "sender %s at %s of (Parse known + Parse new + Sync)%s, config %s: %s" % (c["action"], c["point"], " while the batch waits for the pool" if c["held"] else "", c["variant"], probs[0]),
                       {"input": {"family": "pool_wait", "variant": c["variant"], "point": c["point"], "action": c["action"], "held": c["held"], "bytes_hex": c["bytes"].hex()}, "monitors": probs})
     out["pool_wait"] = {"scenarios": len(pw), "failures": len(fails)}
+    fn = foreign_name_cases()
+    res = run_confirmed(wire, [foreign_name_scenario(c) for c in fn], fn, foreign_name_monitor)
+    fails, sqlfails = [], []
+    for c, r in zip(fn, res):
+        probs = monitors(r, c) + foreign_name_monitor(r, c)
+        if probs and "_sql_" in c["label"]:
+            sqlfails.append((c, probs))
+        elif probs:
+            fails.append((c, probs))
+    if sqlfails:
+        # SQL-level DEALLOCATE / PREPARE of the pooler's names is a well-formed Query that the server executes: reported to the
+        # coordinator (F38 candidate); KNOWN-FINDING if recorded as known, VIOLATION if recorded as fixed, evidence-only until classified
+        ent = {e.get("id"): e for e in vlib.known_findings("C11")}.get("F38-sql-deallocate-of-pooler-statement")
+        text = ("a simple Query `DEALLOCATE PGCAT_0` from one client drops the statement the pooler prepared for everybody on that server connection while the "
+                "pooler's per-connection list keeps it: other clients' Bind gets 26000 `prepared statement \"PGCAT_0\" does not exist` for as long as the connection lives")
+        if ent and ent.get("status") == "known":
+            run.known_finding(text, key="F38-sql-deallocate-of-pooler-statement")
+        elif ent:
+            c0_, p0_ = sqlfails[0]
+            viol(run, p0_, "SQL-level DEALLOCATE/PREPARE of the pooler's statement names (%s): %s" % (c0_["label"], p0_[0]),
+                 {"input": {"family": "foreign_names", "variant": c0_["variant"], "label": c0_["label"], "bytes_hex": c0_["bytes"].hex()}, "monitors": p0_})
+        else:
+            run.log("REPORTED, not yet classified: %s (%d scenarios)" % (text, len(sqlfails)))
+    for c, probs in fails[:4]:
+        viol(run, probs, "hostile use of a statement name the sender does not own (%s): %s" % (c["label"], probs[0]),
+             {"input": {"family": "foreign_names", "variant": c["variant"], "label": c["label"], "victim_stays": c["stay"], "bytes_hex": c["bytes"].hex()}, "monitors": probs})
+    out["foreign_names"] = {"scenarios": len(fn), "failures": len(fails), "failed": [c["label"] for c, _ in fails][:10],
+                            "sql_level_deallocate_reaches_victims": [c["label"] for c, _ in sqlfails][:10]}
     sp = startup_param_cases()
     res = run_confirmed(wire, [scenario(c) for c in sp], sp)
     fails, authed, set_seen = [], 0, 0
@@ -1103,7 +1216,7 @@ def cross_client_probes(run, wire):
                    "answered exactly as on a fresh pool (no 26000 / 42P05, no panic of its task), a clean session and the canary's own tracked parameters at its first statement; "
                    "that a connection is never handed on unclean is the clean_handoff hypothesis (C02), that the SET the pooler sends is one statement is C12's codec")
     run.cov["cross_client_probes"] = out
-    return len(pw) + len(sp)
+    return len(pw) + len(sp) + len(fn)
 
 
 def copy_abort_probe(run, wire):
